@@ -11,7 +11,7 @@ R18.5 the editor's "unchanged" test covers every stored field of the timestamp i
 """
 from analyses import Deps, Must, edge_dominates, error_blocks, switch_source
 from core import vkey
-from model import op_place, operands_of_rvalue
+from model import op_const, op_place, operands_of_rvalue
 
 EDITOR = 'fatfs::dir_entry::DirEntryEditor'
 DATA = 'fatfs::dir_entry::DirFileEntryData'
@@ -66,6 +66,7 @@ def fields_read(facts, fn, depth=0, seen=None):
 
 
 def run(ctx, rep):
+    run_bit_layout(ctx, rep)
     facts, eff = ctx.facts, ctx.effects
     fat = [f for f in facts.fns.values() if f.crate == 'fatfs']
     # ---------------- R18.1
@@ -252,3 +253,150 @@ def run(ctx, rep):
             rep.violation('R18.5', vkey('R18.5', E.name, 'unchanged-test', ''), E.loc(E.span),
                           'the "value unchanged" test of %s does not look at %s: a new value that differs only there is '
                           'silently dropped' % (E.name, sorted(missing)))
+
+
+# ---------------------------------------------------------------------------------------------------------------
+# R18.6 the DOS date / time words are cut at the bit positions the FAT specification gives
+
+SPEC_BITS = {
+    'fatfs::time::Time::decode': {'hour': (11, 5), 'min': (5, 6), 'sec': (0, 5)},
+    'fatfs::time::Date::decode': {'year': (9, 7), 'month': (5, 4), 'day': (0, 5)},
+}
+ENC_SHIFTS = {'fatfs::time::Time::encode': {'hour': 11, 'min': 5}, 'fatfs::time::Date::encode': {'year': 9, 'month': 5}}
+
+
+def _single_defs(fn):
+    defs, multi = {}, set()
+    for bi in fn.reachable():
+        for s in fn.blocks[bi]['stmts']:
+            if s['k'] == 'assign' and not s['lhs']['p']:
+                l = s['lhs']['l']
+                if l in defs:
+                    multi.add(l)
+                defs[l] = s['rv']
+    for l in multi:
+        defs.pop(l, None)
+    return defs
+
+
+def bitfield_of(fn, defs, deps, o, word_param=1, depth=0):
+    """(shift, mask or None) with which the value `o` is cut out of parameter `word_param`, following copies, casts,
+    checked-arithmetic temporaries, tuple fields and the arithmetic applied afterwards (x2, + 1980); None = unknown"""
+    shift, mask = 0, None
+    cur = o
+    for _ in range(40):
+        p = op_place(cur)
+        if p is None:
+            return None
+        if p['l'] == word_param and not p['p']:
+            return shift, mask
+        rv = defs.get(p['l'])
+        if rv is None:
+            return None
+        if p['p']:
+            # projection of a tuple / checked-op pair: `(tmp.0)`
+            idx = [e for e in p['p'] if 'f' in e]
+            if rv['k'] == 'agg' and idx and isinstance(idx[-1]['f'], int) and idx[-1]['f'] < len(rv['ops']):
+                cur = rv['ops'][idx[-1]['f']]
+                continue
+            if rv['k'] == 'binop':
+                pass  # `.0` of a checked operation: fall through to the binop itself
+            else:
+                return None
+        k = rv['k']
+        if k in ('use', 'cast'):
+            cur = rv['a']
+            continue
+        if k == 'binop':
+            op = rv['op'].replace('WithOverflow', '').replace('Unchecked', '')
+            a, b = rv['a'], rv['b']
+            ca, cb = op_const(a), op_const(b)
+            if op == 'BitAnd' and (ca or cb):
+                # walking from the result inwards: a mask met after a shift was applied BEFORE it: (x & m) >> s
+                m = (cb or ca).get('val') >> shift
+                mask = m if mask is None else (mask & m)
+                cur = a if cb else b
+                continue
+            if op == 'Shr' and cb:
+                shift += cb.get('val')
+                cur = a
+                continue
+            if op in ('Mul', 'Add', 'Sub', 'Div'):
+                # arithmetic on the extracted field: follow the operand that comes from the word
+                fa = ('param', word_param) in deps.of_operand(a)
+                fb = ('param', word_param) in deps.of_operand(b)
+                if fa == fb:
+                    return None
+                cur = a if fa else b
+                continue
+            return None
+        if k == 'agg' and len(rv['ops']) == 1:
+            cur = rv['ops'][0]
+            continue
+        return None
+    return None
+
+
+def run_bit_layout(ctx, rep):
+    facts = ctx.facts
+    for name, spec in SPEC_BITS.items():
+        fn = facts.fns.get(name)
+        if fn is None:
+            rep.machinery('ANCHOR-MISSING ' + name)
+            continue
+        defs = _single_defs(fn)
+        deps = Deps(fn)
+        got = {}
+        for bi in fn.reachable():
+            for s in fn.blocks[bi]['stmts']:
+                if s['k'] == 'assign' and s['rv']['k'] == 'agg' and s['rv'].get('fields') and \
+                        set(spec) <= set(s['rv']['fields']):
+                    for fname, o in zip(s['rv']['fields'], s['rv']['ops']):
+                        if fname in spec:
+                            got[fname] = bitfield_of(fn, defs, deps, o)
+        if not got:
+            # built through the checked constructor: arguments of `new`
+            for b, t in fn.calls():
+                if (t.get('callee') or '').endswith(('Time::new', 'Date::new')) and len(t['args']) >= 3:
+                    for fname, o in zip(list(spec), t['args']):
+                        got[fname] = bitfield_of(fn, defs, deps, o)
+        probs = []
+        for fname, (lo, width) in spec.items():
+            g = got.get(fname)
+            if g is None:
+                probs.append('%s: extraction not recognised' % fname)
+                continue
+            sh, m = g
+            if m is None:
+                w = 16 - sh
+            elif m & (m + 1) == 0:
+                w = min(m.bit_length(), 16 - sh)
+            else:
+                w = None
+            if sh != lo or w != width:
+                probs.append('%s is taken from bits %s (shift %d, mask %s), the specification says bits %d..%d' % (
+                    fname, '%d..%d' % (sh, sh + w - 1) if w else '?', sh, hex(m) if m is not None else 'none', lo, lo + width - 1))
+        rep.oblige('R18.6', name, ok=not probs, nontrivial=True, sample={'fn': name, 'fields': {k: str(v) for k, v in got.items()}})
+        if probs:
+            rep.violation('R18.6', vkey('R18.6', name, 'bit-layout', ''), fn.loc(fn.span),
+                          'DOS date/time decoding does not follow the on-disk bit layout: ' + '; '.join(probs))
+    for name, spec in ENC_SHIFTS.items():
+        fn = facts.fns.get(name)
+        if fn is None:
+            rep.machinery('ANCHOR-MISSING ' + name)
+            continue
+        deps = Deps(fn)
+        shifts = {}
+        for bi in fn.reachable():
+            for s in fn.blocks[bi]['stmts']:
+                if s['k'] == 'assign' and s['rv']['k'] == 'binop' and s['rv']['op'].startswith('Shl'):
+                    c = op_const(s['rv']['b'])
+                    toks = deps.of_operand(s['rv']['a'])
+                    for fname in spec:
+                        if ('field', fname) in toks and c is not None:
+                            shifts[fname] = c.get('val')
+        ok = shifts == spec
+        rep.oblige('R18.6', name, ok=ok, nontrivial=True, sample={'fn': name, 'shifts': shifts})
+        if not ok:
+            rep.violation('R18.6', vkey('R18.6', name, 'bit-layout', ''), fn.loc(fn.span),
+                          'DOS date/time encoding shifts %s differ from the on-disk layout %s' % (shifts, spec))
